@@ -425,7 +425,7 @@ func runC07(c *fw.Ctx) {
 	idx = 100000 + 6*total
 
 	// (c) PRNG histories.
-	nRandom := c.Pick(3000, 60000)
+	nRandom := c.Pick(3000, 300000)
 	for k := 0; k < nRandom; k++ {
 		i := idx
 		if !c.Begin(i) {
